@@ -21,7 +21,11 @@ LEVEL = 'exploration'
 RULE = ('one case = one shape (a circle, a list of circles, or a convex 3..8-gon with vertices on a small circle, both '
         'orientations) inserted in a fresh Region (maxdepth 3..12; depth argument None / coarser / deeper than maxdepth), '
         'then ~2000 seeded probes: uniform interior, interior within 1e-7..1 pixel of the boundary, the free band '
-        '(boundary .. boundary + 3 pixel sizes), just beyond the band, whole sphere, non-finite; an evaluation is one '
+        '(boundary .. boundary + 3 pixel sizes), just beyond the band, whole sphere, non-finite, plus whole-degree '
+        'positions on and around the shape handed to sky_within(degin=True) as python ints, lists of ints, int32/int64 '
+        'arrays and numpy integer scalars (must equal the float spelling and obey the same geometric oracle); a '
+        '"build" case = 2..4 successive add_circles/add_poly calls on one Region (nested in both orders, partially '
+        'overlapping, disjoint) whose get_area is read BEFORE any query and again after one; an evaluation is one '
         'probe judged through one sky_within call, or one stored pixel examined; non-trivial = the probe is farther than '
         '1e-9 rad from the boundary it is judged against (must-be-inside or must-be-outside); distinct = unique probe '
         'coordinates within a case, cases with equal hash counted once')
@@ -38,13 +42,21 @@ ASSUMPTIONS = ['oracle: sphere.sep separations; polygon interior = same side of 
                'radius + max_pixrad(4 nside), so the farthest point of an accepted pixel is at most '
                '(2 max_pixrad(nside) + max_pixrad(4 nside)) / resol = 2.30..2.35 pixel sizes outside the shape: the '
                'observed worst excess (about 2.0) is bounded by geometry, not by sampling, and stays below the 3 of '
-               'the statement; likewise area >= cap(r) is implied by coverage']
+               'the statement; likewise area >= cap(r) is implied by coverage',
+               'build cases: area bounds are the area of the union of the exact shapes (lower) and of the union of the '
+               'caps / circumscribed caps grown by 3 pixel sizes (upper), both estimated by a seeded Monte-Carlo '
+               'sample of 300000 points uniform in a bounding cap; the bounds are widened by 6 binomial standard '
+               'deviations (false-alarm probability < 1e-8 per case) and the estimate is reported with its error',
+               'integer-typed coordinates are exercised in DEGREES only (degin=True): integer radians are not a '
+               'meaningful way to address the sky and are outside the workload']
 MIN_REACH = {'regions:Region.add_circles': 1, 'regions:Region.add_poly': 1, 'regions:Region.sky_within': 1,
              'regions:Region.get_area': 1}
 MIN_COUNTERS = {'circle_probe_inside_judged': 2000, 'circle_probe_far_judged': 2000,
                 'poly_probe_inside_judged': 2000, 'poly_probe_far_judged': 2000,
                 'stored_pixels_examined': 1000, 'area_checked': 10, 'scalar_calls': 100,
-                'shapes_at_pole': 2, 'shapes_across_ra0': 2, 'nonfinite_probes': 10}
+                'shapes_at_pole': 2, 'shapes_across_ra0': 2, 'nonfinite_probes': 10,
+                'integer_probe_inside_judged': 300, 'integer_probe_far_judged': 300, 'integer_spellings_compared': 2000,
+                'builds_area_before_query': 30, 'builds_with_overlap': 15, 'build_probe_inside_judged': 2000}
 
 EPS_RAD = 1e-9                      # undetermined band around a boundary (statement: DESIGN C09 'O')
 EPS_DEG = math.degrees(EPS_RAD)
@@ -103,8 +115,34 @@ def cases(seed, tier):
             out.append({'kind': 'poly', 'maxdepth': md, 'depth': None, 'ra': math.radians(ra), 'dec': math.radians(dec),
                         'R': math.radians(R), 'angles': [float(a) for a in ang], 'orient': orient, 'n': 2000,
                         'seed': ['t', 'poly', i, orient]})
+    # shapes centred on whole degrees and wide enough to hold whole-degree positions (integer-typed probes)
+    for i, (ra, dec, r, md) in enumerate(((15.0, -45.0, 5.0, 6), (0.0, 0.0, 3.0, 7), (359.0, 88.0, 8.0, 6),
+                                          (200.0, -90.0, 10.0, 5), (90.0, 30.0, 1.5, 8), (300.0, 60.0, 25.0, 4))):
+        out.append({'kind': 'circle', 'maxdepth': md, 'depth': None, 'ra': math.radians(ra), 'dec': math.radians(dec),
+                    'r': math.radians(r), 'style': 'scalar', 'n': 1000, 'seed': ['t', 'whole', i]})
+    # multi-step builds: a second call that overlaps pixels already promoted by the first; area read before any query
+    tb = [
+        (9, [(150.0, -30.0, 4.0), (151.0, -29.5, 3.0)]), (9, [(151.0, -29.5, 3.0), (150.0, -30.0, 4.0)]),
+        (10, [(10.0, 20.0, 2.0), (12.5, 20.5, 2.0)]), (11, [(359.8, -5.0, 0.8), (0.3, -5.2, 0.5), (0.0, -4.4, 0.3)]),
+        (9, [(40.0, 86.0, 3.0), (100.0, 88.0, 2.5)]), (10, [(200.0, 0.0, 1.5), (200.2, 0.1, 0.4), (205.0, 0.0, 0.5)]),
+        (8, [(80.0, 45.0, 6.0), (82.0, 46.0, 2.0), (78.0, 44.0, 2.5), (80.0, 45.0, 1.0)]),
+    ]
+    for i, (md, circ) in enumerate(tb):
+        for polymask in (0, 1, 2):
+            steps = []
+            for j, (ra, dec, r) in enumerate(circ):
+                st = {'ra': ra, 'dec': dec, 'r': r, 'rel': 'targeted', 'op': 'circle'}
+                if polymask and (j + polymask) % 2 == 0:
+                    st.update(op='poly', angles=[5.0, 65.0, 130.0, 190.0, 250.0, 310.0], orient=1 if j % 2 else -1)
+                steps.append(st)
+            out.append({'kind': 'build', 'maxdepth': md, 'depth': None, 'steps': steps, 'n': 1200,
+                        'seed': ['t', 'build', i, polymask]})
     # ---- seeded random sample
     rng = rng_for(seed, 'c09-cases', tier)
+    for i in range(90 if tier == 'quick' else 1500):
+        md = int(rng.integers(8, 12))
+        out.append({'kind': 'build', 'maxdepth': md, 'depth': None, 'steps': _gen_build(rng, md), 'n': 1200,
+                    'seed': [seed, 'build', i]})
     ncirc, nmulti, npoly = (520, 60, 460) if tier == 'quick' else (9000, 1000, 8000)
     cap = 150 if tier == 'quick' else 250
     for i in range(ncirc):
@@ -256,6 +294,87 @@ def _query_all(o, reg, ra_deg, dec_deg, rng):
     return res_rad
 
 
+def _whole_degree_probes(rng, centres, radii_deg, pix, n=260):
+    """whole-degree positions: the lattice points on and around every shape, plus some anywhere"""
+    ras, decs = [], []
+    for (ra0, dec0), r in zip(centres, radii_deg):
+        reach = min(r + BAND * pix + 3.0, 180.0)
+        d = np.arange(max(-90, math.floor(dec0 - reach)), min(90, math.ceil(dec0 + reach)) + 1)
+        cosd = max(math.cos(math.radians(min(89.0, abs(dec0) + reach))), 0.02)
+        half = min(180.0, reach / cosd)
+        a = np.arange(math.floor(ra0 - half), math.ceil(ra0 + half) + 1)
+        if len(a) * len(d) > 4000:
+            a = rng.choice(a, size=max(1, 4000 // len(d)), replace=False)
+        A, D = np.meshgrid(a, d)
+        A, D = A.ravel(), D.ravel()
+        keep = sphere.sep(ra0, dec0, A % 360, D) <= reach
+        A, D = A[keep], D[keep]
+        if len(A) > n:
+            sel = rng.choice(len(A), n, replace=False)
+            A, D = A[sel], D[sel]
+        ras.append(A % 360)
+        decs.append(D)
+        # the whole-degree point nearest to the centre, the centre's own parallel / meridian
+        ras.append(np.array([round(ra0) % 360, round(ra0) % 360, (round(ra0) + 1) % 360]))
+        decs.append(np.clip(np.array([round(dec0), min(90, round(dec0) + 1), round(dec0)]), -90, 90))
+    ras.append(rng.integers(0, 361, 40))            # 360 itself is a legal spelling of 0
+    decs.append(rng.integers(-90, 91, 40))
+    ras.append(np.array([0, 0, 0, 180, 360, 90]))
+    decs.append(np.array([0, 90, -90, 0, 0, 45]))
+    return np.concatenate(ras).astype(np.int64), np.concatenate(decs).astype(np.int64)
+
+
+def _query_integers(o, reg, ira, idec, rng):
+    """the same whole-degree positions through every integer-typed spelling of sky_within(degin=True); every spelling
+    must give the answer of the float spelling.  Returns that (float spelling) answer or None."""
+    fra, fdec = ira.astype(float), idec.astype(float)
+    ok, ref = _call(o, reg.sky_within, 'sky_within(float whole degrees, degin=True)', fra, fdec, degin=True)
+    if not ok:
+        return None
+    ref = np.asarray(ref)
+    o.n_eval += len(ira)
+
+    def cmp(tag, got, idx):
+        got = np.asarray(got)
+        o.count('integer_spellings_compared', len(idx))
+        o.n_eval += len(idx)
+        o.see('integer_spelling', tag)
+        if got.shape != (len(idx),) or got.dtype != bool:
+            o.violate('result_shape', {'spelling': tag, 'shape': list(got.shape), 'dtype': str(got.dtype)})
+            return
+        bad = np.flatnonzero(got != ref[idx])
+        for k in bad[:3]:
+            i = idx[k]
+            o.violate('integer_vs_float_degrees', {'spelling': tag, 'ra_deg': int(ira[i]), 'dec_deg': int(idec[i]),
+                                                   'integer_answer': bool(got[k]), 'float_answer': bool(ref[i]),
+                                                   'n_differ': int(len(bad)), 'n': int(len(idx))})
+
+    allidx = np.arange(len(ira))
+    for tag, a, d in (('int64 arrays', ira.astype(np.int64), idec.astype(np.int64)),
+                      ('int32 arrays', ira.astype(np.int32), idec.astype(np.int32)),
+                      ('int16 ra / int8 dec arrays', ira.astype(np.int16), idec.astype(np.int8)),
+                      ('lists of python ints', [int(x) for x in ira], [int(x) for x in idec]),
+                      ('tuples of python ints', tuple(int(x) for x in ira), tuple(int(x) for x in idec)),
+                      ('list of numpy int64 scalars', [np.int64(x) for x in ira], [np.int64(x) for x in idec]),
+                      ('int ra array / float dec array', ira.astype(np.int64), fdec),
+                      ('float ra array / int dec array', fra, idec.astype(np.int64))):
+        ok, got = _call(o, reg.sky_within, 'sky_within(%s, degin=True)' % tag, a, d, degin=True)
+        if ok:
+            cmp(tag, got, allidx)
+    # scalars: prefer the positions the float spelling reports inside, they are the informative ones
+    inside = np.flatnonzero(ref)
+    pick = list(rng.choice(inside, min(len(inside), 25), replace=False)) if len(inside) else []
+    pick += list(rng.integers(0, len(ira), 15))
+    for i in pick:
+        for tag, a, d in (('python int scalars', int(ira[i]), int(idec[i])),
+                          ('numpy int64 scalars', np.int64(ira[i]), np.int64(idec[i])),
+                          ('numpy int32 scalars', np.int32(ira[i]), np.int32(idec[i]))):
+            ok, got = _call(o, reg.sky_within, 'sky_within(%s, degin=True)' % tag, a, d, degin=True)
+            if ok:
+                cmp(tag, np.asarray(got).ravel(), np.array([i]))
+    return ref
+
+
 def _stored_pixels(reg):
     """[(level, int ids)] from a deep copy of the pixeldict"""
     import copy
@@ -335,6 +454,236 @@ def _judge(o, tag, res, model_in, must_in, must_out, free, ra, dec, stable_fn, e
     o.count('sky_within_vs_stored_pixels_compared', len(res))
 
 
+# ----------------------------------------------------------------------------- shapes (shared by integer probes and builds)
+def _poly_geom(vra, vdec):
+    """edge-plane normals of a convex polygon given by its vertices (deg), oriented towards the interior"""
+    vv = sphere.vec(np.asarray(vra, dtype=float), np.asarray(vdec, dtype=float))
+    nrm = np.cross(vv, np.roll(vv, -1, axis=0))
+    nrm /= np.linalg.norm(nrm, axis=1, keepdims=True)
+    sgn = np.sign(nrm @ vv.mean(axis=0))
+    if not np.all(sgn == sgn[0]) or sgn[0] == 0:
+        raise RuntimeError('harness: generated polygon is not convex')
+    return nrm * sgn[0]
+
+
+def _circle_shape(ra0, dec0, r):
+    return {'kind': 'circle', 'cen': (ra0, dec0), 'R': r}
+
+
+def _poly_shape(ra0, dec0, vra, vdec):
+    return {'kind': 'poly', 'cen': (ra0, dec0), 'R': float(sphere.sep(ra0, dec0, vra, vdec).max()),
+            'nrm': _poly_geom(vra, vdec), 'vertices': [[float(a), float(d)] for a, d in zip(vra, vdec)]}
+
+
+def _union_margins(shapes, ra, dec):
+    """inner: how far (deg) a position is inside the union of the exact shapes (max over shapes; > 0 inside);
+    outer: distance beyond the nearest (circumscribed) circle (min over shapes; > 0 outside all of them)"""
+    inner = np.full(np.shape(ra), -np.inf)
+    outer = np.full(np.shape(ra), np.inf)
+    pv = None
+    for sh in shapes:
+        d = sphere.sep(sh['cen'][0], sh['cen'][1], ra, dec)
+        outer = np.minimum(outer, d - sh['R'])
+        if sh['kind'] == 'circle':
+            inner = np.maximum(inner, sh['R'] - d)
+        else:
+            if pv is None:
+                pv = sphere.vec(ra, dec)
+            h = np.degrees(np.arcsin(np.clip(pv @ sh['nrm'].T, -1, 1))).min(axis=-1)
+            inner = np.maximum(inner, h)
+    return inner, outer
+
+
+def _shape_summary(shapes):
+    return [{'kind': sh['kind'], 'centre_deg': list(sh['cen']), 'radius_deg': sh['R'],
+             **({'vertices_deg': sh['vertices']} if sh['kind'] == 'poly' else {})} for sh in shapes]
+
+
+def _classify(shapes, ra, dec, pix):
+    inner, outer = _union_margins(shapes, ra, dec)
+    must_in = inner >= EPS_DEG
+    must_out = outer > BAND * pix + EPS_DEG
+    free = ~must_in & ~must_out & (np.abs(inner) > EPS_DEG) & (np.abs(outer - BAND * pix) > EPS_DEG)
+    return inner, outer, must_in, must_out, free
+
+
+def _integer_section(o, reg, shapes, pix, md, iv, rng):
+    """whole-degree positions in integer-typed spellings (degrees): equal to the float spelling, and judged geometrically"""
+    ira, idec = _whole_degree_probes(rng, [sh['cen'] for sh in shapes], [sh['R'] for sh in shapes], pix)
+    ref = _query_integers(o, reg, ira, idec, rng)
+    if ref is None:
+        return
+    fra, fdec = ira.astype(float), idec.astype(float)
+    inner, outer, must_in, must_out, free = _classify(shapes, fra, fdec, pix)
+    model_in = healmember.member(iv, healmember.cell(fra, fdec, md))
+    summ = _shape_summary(shapes)
+
+    def extra(i):
+        return {'shapes': summ, 'pixel_size_deg': pix, 'maxdepth': md, 'whole_degree_position': True,
+                'inside_margin_deg': float(inner[i]), 'distance_beyond_circle_deg': float(outer[i])}
+    _judge(o, 'integer', ref, model_in, must_in, must_out, free, fra, fdec,
+           lambda idx: healmember.stable_cell(fra[idx], fdec[idx], md)[1], extra)
+    o.n_nontrivial += n_distinct_rows(fra[must_in | must_out], fdec[must_in | must_out])
+
+
+# ----------------------------------------------------------------------------- multi-step builds
+NMC = 300000
+
+
+def _mc_union_areas(shapes, pix, rng):
+    """(lower, sigma_lower, upper, sigma_upper) in steradian: area of the union of the exact shapes, and of the union of
+    the (circumscribed) caps grown by 3 pixel sizes, from NMC points uniform in a bounding cap"""
+    cv = np.array([sphere.vec(*sh['cen']) for sh in shapes])
+    m = cv.mean(axis=0)
+    m /= np.linalg.norm(m)
+    ra_c, dec_c = sphere.radec(m)
+    ra_c, dec_c = float(ra_c), float(dec_c)
+    rb = max(float(sphere.sep(ra_c, dec_c, sh['cen'][0], sh['cen'][1])) + sh['R'] for sh in shapes) + BAND * pix + 0.01
+    if rb >= 179:
+        return None
+    cosb = math.cos(math.radians(rb))
+    s = np.degrees(np.arccos(1 - rng.uniform(0, 1, NMC) * (1 - cosb)))
+    ra, dec = sphere.destination(ra_c, dec_c, s, rng.uniform(0, 360, NMC))
+    inner, outer = _union_margins(shapes, ra, dec)
+    acap = 2 * math.pi * (1 - cosb)
+    out = []
+    for p in (float((inner >= 0).mean()), float((outer <= BAND * pix).mean())):
+        out += [p * acap, acap * math.sqrt(max(p * (1 - p), 1.0 / NMC) / NMC)]
+    return tuple(out)
+
+
+def _gen_build(rng, md):
+    """2..4 shapes: each later one placed relative to an earlier one (nested inside, swallowing it, partial overlap,
+    disjoint).  Angles in degrees; converted to the API's radians in the runner."""
+    pix = resol_deg(md)
+    r0 = pix * rng.uniform(8, 40)
+    ra0 = float(rng.choice([rng.uniform(0, 360), 0.0, 359.9]))
+    dec0 = float(rng.choice([math.degrees(math.asin(rng.uniform(-0.95, 0.95))), 0.0, 89.0 - 2 * r0, -88.0 + 2 * r0]))
+    steps = [{'ra': ra0, 'dec': dec0, 'r': r0, 'rel': 'first'}]
+    for _ in range(int(rng.integers(1, 4))):
+        b = steps[int(rng.integers(0, len(steps)))]
+        rel = str(rng.choice(['nested_small', 'nested_big', 'partial', 'partial', 'disjoint']))
+        if rel == 'nested_small':
+            r = b['r'] * rng.uniform(0.2, 0.75)
+            off = rng.uniform(0, 1) * (b['r'] - r)
+        elif rel == 'nested_big':
+            r = min(b['r'] * rng.uniform(1.3, 2.5), 60 * pix)
+            off = rng.uniform(0, 1) * max(r - b['r'], 0)
+        elif rel == 'partial':
+            r = b['r'] * rng.uniform(0.5, 1.5)
+            off = rng.uniform(abs(b['r'] - r) + pix, b['r'] + r - pix)
+        else:
+            r = b['r'] * rng.uniform(0.4, 1.2)
+            off = b['r'] + r + pix * rng.uniform(0.5, 8)
+        a, d = sphere.destination(b['ra'], b['dec'], off, rng.uniform(0, 360))
+        steps.append({'ra': float(a) % 360.0, 'dec': float(np.clip(d, -89.5, 89.5)), 'r': float(r), 'rel': rel})
+    for st in steps:
+        if rng.random() < 0.35:
+            st['op'] = 'poly'
+            st['angles'] = _angles(rng, int(rng.integers(3, 9)), mingap=8.0)
+            st['orient'] = int(rng.choice([1, -1]))
+        else:
+            st['op'] = 'circle'
+    return steps
+
+
+def _run_build(o, reg, case, rng, md, pix):
+    shapes = []
+    prev_area = None
+    for k, st in enumerate(case['steps']):
+        if st['op'] == 'circle':
+            ok, _ = _call(o, reg.add_circles, 'add_circles (step %d of a build)' % k, math.radians(st['ra']),
+                          math.radians(st['dec']), math.radians(st['r']))
+            shapes.append(_circle_shape(st['ra'], st['dec'], st['r']))
+        else:
+            ang = list(st['angles'])[::st['orient']]
+            vra, vdec = sphere.destination(st['ra'], st['dec'], np.full(len(ang), st['r']), np.array(ang))
+            ok, _ = _call(o, reg.add_poly, 'add_poly (step %d of a build)' % k,
+                          [[math.radians(a), math.radians(d)] for a, d in zip(vra, vdec)])
+            shapes.append(_poly_shape(st['ra'], st['dec'], vra, vdec))
+        if not ok:
+            return o.result()
+        o.see('build_step', '%s/%s' % (st['op'], st['rel']))
+        # after every step, still before any query: the area is that of the stored pixels, and never shrinks
+        ok, a = _call(o, reg.get_area, 'get_area() after step %d, before any query' % k)
+        if not ok:
+            return o.result()
+        iv = healmember.intervals(reg.pixeldict, md, ignore_deeper=True)
+        want = healmember.n_deepest(iv) * SPHERE_SR / (12 * 4 ** md) * SQDEG
+        o.n_eval += 1
+        o.worst('build_area_vs_stored_pixels_rel', abs(a - want) / want)
+        if abs(a - want) > 1e-9 * want:
+            o.violate('area_vs_stored_pixels', {'step': k, 'steps': case['steps'], 'get_area_sqdeg': a,
+                                                'stored_pixels_sqdeg': want, 'maxdepth': md, 'before_any_query': True})
+        prev_area = a
+    summ = _shape_summary(shapes)
+    overlap = any(float(sphere.sep(a['cen'][0], a['cen'][1], b['cen'][0], b['cen'][1])) < a['R'] + b['R']
+                  for i, a in enumerate(shapes) for b in shapes[i + 1:])
+    if overlap:
+        o.count('builds_with_overlap')
+    o.worst('radius_over_pixel', max(sh['R'] for sh in shapes) / pix)
+    # ---- area before any query, against the union of the shapes
+    area_before = {}
+    for degrees in (True, False):
+        ok, a = _call(o, reg.get_area, 'get_area(degrees=%s) before any query' % degrees, degrees=degrees)
+        if ok:
+            area_before[degrees] = a
+    o.count('builds_area_before_query')
+    mc = _mc_union_areas(shapes, pix, rng_for(*case['seed'], 'mc'))
+    if mc is not None and True in area_before:
+        lo, slo, hi, shi = mc
+        a_sr = area_before[True] / SQDEG
+        o.n_eval += 1
+        o.count('area_checked')
+        o.worst('build_area_position_in_band_max', (a_sr - lo) / (hi - lo))
+        o.worst('build_area_position_in_band_neg_min', -(a_sr - lo) / (hi - lo))
+        o.worst('build_mc_6sigma_over_band', 6 * max(slo, shi) / (hi - lo))
+        if not (lo - 6 * slo <= a_sr <= hi + 6 * shi):
+            o.violate('area_outside_union_of_caps', {
+                'shapes': summ, 'steps': case['steps'], 'maxdepth': md, 'pixel_size_deg': pix,
+                'get_area_sqdeg_before_any_query': area_before[True],
+                'union_of_shapes_sqdeg': [lo * SQDEG, '+-%g (1 sigma, Monte-Carlo)' % (slo * SQDEG)],
+                'union_of_grown_caps_sqdeg': [hi * SQDEG, '+-%g (1 sigma, Monte-Carlo)' % (shi * SQDEG)]})
+    iv = healmember.intervals(reg.pixeldict, md, ignore_deeper=True)
+    _examine_pixels(o, reg, [sh['cen'] for sh in shapes], [sh['R'] for sh in shapes], pix, 'build')
+    # ---- probes (the first query of this region's life)
+    n_each = case['n'] // len(shapes)
+    pra, pdec = [], []
+    for sh in shapes:
+        x, y = _probes_about(rng, sh['cen'][0], sh['cen'][1], sh['R'], pix, n_each)
+        pra.append(x)
+        pdec.append(y)
+    pra, pdec = np.concatenate(pra), np.concatenate(pdec)
+    res = _query_all(o, reg, pra, pdec, rng)
+    if res is None:
+        return o.result()
+    # ---- the area must not depend on whether a query has happened
+    for degrees, before in area_before.items():
+        ok, after = _call(o, reg.get_area, 'get_area(degrees=%s) after a query' % degrees, degrees=degrees)
+        if ok:
+            o.n_eval += 1
+            o.count('builds_area_after_query_compared')
+            o.worst('build_area_change_by_query_rel', abs(after - before) / max(before, 1e-300))
+            if abs(after - before) > 1e-9 * max(before, 1e-300):
+                o.violate('area_changed_by_query', {'shapes': summ, 'steps': case['steps'], 'maxdepth': md,
+                                                    'degrees': degrees, 'get_area_before_any_query': before,
+                                                    'get_area_after_sky_within': after})
+    inner, outer, must_in, must_out, free = _classify(shapes, pra, pdec, pix)
+    model_in = healmember.member(iv, healmember.cell(pra, pdec, md))
+
+    def extra(i):
+        return {'shapes': summ, 'pixel_size_deg': pix, 'maxdepth': md, 'inside_margin_deg': float(inner[i]),
+                'distance_beyond_circle_deg': float(outer[i])}
+    _judge(o, 'build', res, model_in, must_in, must_out, free, pra, pdec,
+           lambda idx: healmember.stable_cell(pra[idx], pdec[idx], md)[1], extra)
+    o.n_nontrivial += n_distinct_rows(pra[must_in | must_out], pdec[must_in | must_out])
+    _integer_section(o, reg, shapes, pix, md, iv, rng)
+    o.sample = {'steps': case['steps'], 'maxdepth': md, 'pixel_size_deg': pix, 'area_before_query_sqdeg': area_before.get(True),
+                'union_bounds_sqdeg': None if mc is None else [mc[0] * SQDEG, mc[2] * SQDEG],
+                'deepest_pixels': healmember.n_deepest(iv), 'overlap': bool(overlap)}
+    return o.result()
+
+
 # ----------------------------------------------------------------------------- run
 def run(case):
     from AegeanTools.regions import Region
@@ -354,6 +703,8 @@ def run(case):
     kind = case['kind']
     if kind in ('circle', 'circles'):
         return _run_circles(o, reg, case, rng, md, dp, pix)
+    if kind == 'build':
+        return _run_build(o, reg, case, rng, md, pix)
     return _run_poly(o, reg, case, rng, md, dp, pix)
 
 
@@ -429,6 +780,7 @@ def _run_circles(o, reg, case, rng, md, dp, pix):
     _judge(o, 'circle', res, model_in, must_in, must_out, free, pra, pdec,
            lambda idx: healmember.stable_cell(pra[idx], pdec[idx], md)[1], extra)
     o.n_nontrivial += n_distinct_rows(pra[must_in | must_out], pdec[must_in | must_out])
+    _integer_section(o, reg, [_circle_shape(a, d, r) for (a, d), r in zip(cen, rdeg)], pix, md, iv, rng)
     o.sample = {'centres_deg': cen, 'radii_deg': rdeg, 'maxdepth': md, 'depth': dp, 'pixel_size_deg': pix,
                 'deepest_pixels': healmember.n_deepest(iv), 'probes': len(pra), 'must_in': int(must_in.sum()),
                 'must_out': int(must_out.sum()), 'reported_inside': int(res.sum())}
@@ -503,6 +855,7 @@ def _run_poly(o, reg, case, rng, md, dp, pix):
     _judge(o, 'poly', res, model_in, must_in, must_out, free, pra, pdec,
            lambda idx: healmember.stable_cell(pra[idx], pdec[idx], md)[1], extra)
     o.n_nontrivial += n_distinct_rows(pra[must_in | must_out], pdec[must_in | must_out])
+    _integer_section(o, reg, [_poly_shape(ra0, dec0, vra, vdec)], pix, md, iv, rng)
     o.sample = {'vertices_deg': [[float(a), float(d)] for a, d in zip(vra, vdec)], 'maxdepth': md,
                 'pixel_size_deg': pix, 'deepest_pixels': healmember.n_deepest(iv), 'probes': len(pra),
                 'must_in': int(must_in.sum()), 'must_out': int(must_out.sum()), 'reported_inside': int(res.sum())}
